@@ -8,14 +8,23 @@ package c30_test
 // The LB policy creates one subchannel per address, each with a unique
 // address string so that the plan-driven dialer knows which subchannel is
 // dialing. The driver executes plan steps (sleep, Connect, create / shut down /
-// connect subchannels, close a connection, server GOAWAY / Stop, register
+// connect subchannels, replace a subchannel's address list with
+// SubConn.UpdateAddresses, close a connection, server GOAWAY / Stop, register
 // WaitForStateChange waiters) and checks at every quiescent point.
+//
+// Every address string belongs to exactly one subchannel ("sc3", "sc3.u1",
+// ...), so a dial can always be attributed to a subchannel, and - because
+// UpdateAddresses is only called at quiescent points - to the connection
+// attempt "epoch" of that subchannel: the number of UpdateAddresses calls that
+// had to abandon the running attempt / the live connection before the dial
+// started. Results of dials of an older epoch must never surface.
 
 import (
 	"context"
 	"errors"
 	"fmt"
 	"net"
+	"sort"
 	"sync"
 	"sync/atomic"
 	"testing"
@@ -43,6 +52,9 @@ type step struct {
 	A   int    `json:"a,omitempty"`
 	B   int    `json:"b,omitempty"`
 	Dur int64  `json:"dur,omitempty"`
+	// Pref (sc_update_addrs): 0 = any live subchannel, s+1 = prefer the live
+	// subchannels whose model state is connectivity.State(s), if there are any.
+	Pref int `json:"pref,omitempty"`
 }
 
 type plan struct {
@@ -50,22 +62,81 @@ type plan struct {
 	IdleNs        int64    `json:"idle_ns"` // 0 = idleness disabled
 	NAddrs        int      `json:"n_addrs"`
 	AutoReconnect bool     `json:"auto_reconnect"` // LB policy calls Connect on every IDLE update
-	Outcomes      []string `json:"outcomes"`       // per dial (global order, cycled): ok | fail | hang
+	Outcomes      []string `json:"outcomes"`       // per dial (global order, cycled): ok | fail | hang | slow_ok | slow_fail | hang_ok
 	FreeWatchers  int      `json:"free_watchers"`  // goroutines looping GetState / WaitForStateChange
 	Steps         []step   `json:"steps"`
 }
 
 const (
-	opSleep    = "sleep"
-	opConnect  = "connect"     // cc.Connect()
-	opSCNew    = "sc_new"      // LB creates one more subchannel and connects it
-	opSCShut   = "sc_shutdown" // LB shuts down live subchannel A (mod live)
-	opSCConn   = "sc_connect"  // LB calls Connect on live subchannel A
-	opConnClose = "conn_close" // harness closes open connection A (mod open)
-	opGoAway   = "goaway"      // server GracefulStop (GOAWAY); a fresh server takes over
-	opSrvStop  = "srv_stop"    // server Stop (hard close); a fresh server takes over
-	opWatch    = "watch"       // register a waiter: A = source (-1 current, 0..4 state), B = timeout kind
+	opSleep     = "sleep"
+	opConnect   = "connect"     // cc.Connect()
+	opSCNew     = "sc_new"      // LB creates one more subchannel and connects it
+	opSCShut    = "sc_shutdown" // LB shuts down live subchannel A (mod live)
+	opSCConn    = "sc_connect"  // LB calls Connect on live subchannel A
+	opConnClose = "conn_close"  // harness closes open connection A (mod open)
+	opGoAway    = "goaway"      // server GracefulStop (GOAWAY); a fresh server takes over
+	opSrvStop   = "srv_stop"    // server Stop (hard close); a fresh server takes over
+	opWatch     = "watch"       // register a waiter: A = source (-1 current, 0..4 state), B = timeout kind
+	// LB calls UpdateAddresses on live subchannel A (mod the preferred / live
+	// ones); B = shape of the new list (see uaShapes), built from fresh unique
+	// addresses and the address to keep (the connected one when READY, else
+	// the first of the current list).
+	opSCUpd = "sc_update_addrs"
 )
+
+// dial outcomes:
+//
+//	ok / fail       immediately
+//	hang            blocks until the dial context is done, returns its error
+//	slow_ok/_fail   takes slowDial, then ok / fail; returns the context error if
+//	                the context is done first (what a net.Dialer does)
+//	hang_ok         blocks until the dial context is done; if it was cancelled
+//	                (not timed out) the dialer lost the race with the
+//	                cancellation and returns a live connection anyway
+const slowDial = 400 * time.Millisecond
+
+const (
+	uaReplace  = iota // [fresh]
+	uaAppend          // [keep, fresh]
+	uaPrepend         // [fresh, keep]
+	uaSame            // the current list again (documented no-op)
+	uaReplace2        // [fresh1, fresh2]
+	uaDropHead        // current list without its first element ([fresh] if it has one element)
+	uaShapes
+)
+
+// opTable: 100 slots, the ops interleaved evenly according to their weights.
+// rapid draws small indices far more often than large ones (roughly
+// log-uniform), so a table sorted by op would give its first op most of the
+// steps; with an even interleave every prefix has the intended proportions.
+var opTable = func() []string {
+	weights := []struct {
+		op string
+		w  int
+	}{{opSleep, 34}, {opSCUpd, 18}, {opWatch, 14}, {opConnect, 7}, {opConnClose, 7}, {opSCConn, 6}, {opSCShut, 5}, {opSCNew, 3}, {opGoAway, 3}, {opSrvStop, 3}}
+	type slot struct {
+		pos float64
+		ord int
+		op  string
+	}
+	var slots []slot
+	for ord, w := range weights {
+		for j := 0; j < w.w; j++ {
+			slots = append(slots, slot{(float64(j) + 0.5) / float64(w.w), ord, w.op})
+		}
+	}
+	sort.SliceStable(slots, func(i, j int) bool {
+		if slots[i].pos != slots[j].pos {
+			return slots[i].pos < slots[j].pos
+		}
+		return slots[i].ord < slots[j].ord
+	})
+	var out []string
+	for _, s := range slots {
+		out = append(out, s.op)
+	}
+	return out
+}()
 
 func gen(rt *rapid.T) plan {
 	var p plan
@@ -75,11 +146,11 @@ func gen(rt *rapid.T) plan {
 	p.AutoReconnect = rapid.IntRange(0, 3).Draw(rt, "auto") < 3
 	nOut := rapid.IntRange(1, 8).Draw(rt, "n_outcomes")
 	for i := 0; i < nOut; i++ {
-		p.Outcomes = append(p.Outcomes, rapid.SampledFrom([]string{"ok", "fail", "ok", "fail", "fail", "hang"}).Draw(rt, "outcome"))
+		p.Outcomes = append(p.Outcomes, rapid.SampledFrom([]string{"hang", "ok", "fail", "slow_ok", "ok", "fail", "slow_fail", "hang_ok", "fail", "hang"}).Draw(rt, "outcome"))
 	}
 	p.FreeWatchers = rapid.SampledFrom([]int{0, 1, 2, 3, 8, 16}).Draw(rt, "free_watchers")
 	n := rapid.IntRange(3, vk.Pick(20, 120)).Draw(rt, "n_steps")
-	durs := []int64{1, 1e6, p.BaseNs / 2, p.BaseNs - 1, p.BaseNs, p.BaseNs + 1, 2 * p.BaseNs, 1e9 - 1, 1e9, 1e9 + 1}
+	durs := []int64{1, 1e6, int64(slowDial), p.BaseNs / 2, p.BaseNs - 1, p.BaseNs, p.BaseNs + 1, 2 * p.BaseNs, 1e9 - 1, 1e9, 1e9 + 1}
 	if p.IdleNs > 0 {
 		durs = append(durs, p.IdleNs/2, p.IdleNs, p.IdleNs+1)
 	}
@@ -88,25 +159,20 @@ func gen(rt *rapid.T) plan {
 	}
 	for i := 0; i < n; i++ {
 		var s step
-		switch k := rapid.IntRange(0, 99).Draw(rt, "op"); {
-		case k < 32:
+		switch op := rapid.SampledFrom(opTable).Draw(rt, "op"); op {
+		case opSCUpd:
+			// Preference: CONNECTING most of the time (an attempt in flight is the
+			// interesting target and the rarest state at a quiescent point).
+			pref := rapid.SampledFrom([]int{2, 2, 2, 0, 2, 1, 2, 3, 2, 4}).Draw(rt, "pref")
+			s = step{Op: opSCUpd, A: rapid.IntRange(0, 7).Draw(rt, "a"), B: rapid.IntRange(0, uaShapes-1).Draw(rt, "shape"), Pref: pref}
+		case opSleep:
 			s = step{Op: opSleep, Dur: rapid.SampledFrom(durs).Draw(rt, "dur")}
-		case k < 50:
+		case opWatch:
 			s = step{Op: opWatch, A: rapid.IntRange(-1, 4).Draw(rt, "src"), B: rapid.IntRange(0, 2).Draw(rt, "timeout")}
-		case k < 60:
-			s = step{Op: opConnect}
-		case k < 70:
-			s = step{Op: opConnClose, A: rapid.IntRange(0, 7).Draw(rt, "a")}
-		case k < 78:
-			s = step{Op: opSCShut, A: rapid.IntRange(0, 7).Draw(rt, "a")}
-		case k < 86:
-			s = step{Op: opSCConn, A: rapid.IntRange(0, 7).Draw(rt, "a")}
-		case k < 91:
-			s = step{Op: opSCNew}
-		case k < 96:
-			s = step{Op: opGoAway}
+		case opConnClose, opSCShut, opSCConn:
+			s = step{Op: op, A: rapid.IntRange(0, 7).Draw(rt, "a")}
 		default:
-			s = step{Op: opSrvStop}
+			s = step{Op: op}
 		}
 		p.Steps = append(p.Steps, s)
 	}
@@ -121,21 +187,48 @@ type scUpd struct {
 }
 
 type scRec struct {
-	id       int
-	gen      int
-	addr     string
-	sc       balancer.SubConn
-	upds     []scUpd
-	connects int
-	shutAt   time.Time
-	shut     bool
+	id     int
+	gen    int
+	addr   string   // first address ever; all addresses of this subchannel start with it
+	list   []string // model: the address list most recently handed to grpc
+	nFresh int      // fresh addresses made so far
+	epoch  int      // model: number of UpdateAddresses calls that had to restart the attempt / connection
+	uas    []*uaRec
+	// pendingKept: an UpdateAddresses call that kept the connected address in
+	// the list is being executed; a dial of this subchannel that starts now
+	// means grpc gave the connection up nevertheless (accepted, see notes).
+	pendingKept *uaRec
+	sc          balancer.SubConn
+	upds        []scUpd
+	connects    int
+	shutAt      time.Time
+	shut        bool
+}
+
+// uaRec is one SubConn.UpdateAddresses call (made at a quiescent point).
+type uaRec struct {
+	at    time.Time
+	nUpds int    // updates delivered to the LB policy before the call
+	kind  string // same | list_only_IDLE | list_only_TRANSIENT_FAILURE | kept | kept_but_restarted | restart | supersede
+	list  []string
+	// supersede: the dial that was in flight; restart: the dial whose connection is given up
+	old *dialRec
+}
+
+func (u *uaRec) newEpoch() bool {
+	return u.kind == "restart" || u.kind == "supersede" || u.kind == "kept_but_restarted"
 }
 
 type dialRec struct {
 	addr       string
+	outcome    string
 	start, end time.Time
 	ended, ok  bool
 	conn       *liveConn
+	sc         *scRec
+	epoch      int  // the subchannel's epoch when the dial started
+	inList     bool // addr was in the subchannel's list when the dial started
+	isLast     bool // ... and was its last element
 }
 
 type liveConn struct {
@@ -170,6 +263,126 @@ type caseCtx struct {
 	violation string
 	lis       *bufconn.Listener
 	srvGen    int
+	owner     map[string]*scRec // address -> subchannel
+}
+
+func contains(l []string, a string) bool {
+	for _, x := range l {
+		if x == a {
+			return true
+		}
+	}
+	return false
+}
+
+func sameList(a, b []string) bool {
+	if len(a) != len(b) {
+		return false
+	}
+	for i := range a {
+		if a[i] != b[i] {
+			return false
+		}
+	}
+	return true
+}
+
+func toAddrs(l []string) []resolver.Address {
+	var out []resolver.Address
+	for _, a := range l {
+		out = append(out, resolver.Address{Addr: a})
+	}
+	return out
+}
+
+// lastDial returns the most recently started dial of r (c.mu held).
+func (c *caseCtx) lastDial(r *scRec) *dialRec {
+	var ld *dialRec
+	for _, d := range c.dials {
+		if d.sc == r {
+			ld = d
+		}
+	}
+	return ld
+}
+
+// scExpect is the reference model of one live subchannel at a quiescent point:
+// the state the LB policy must have been told last, derived only from what the
+// harness did and saw (Shutdown calls, UpdateAddresses calls, dials and their
+// results, connections it or the server killed, virtual time). c.mu held.
+func (c *caseCtx) scExpect(r *scRec, now time.Time) (want connectivity.State, ld *dialRec, problem string) {
+	if r.shut {
+		return connectivity.Shutdown, nil, ""
+	}
+	ld = c.lastDial(r)
+	if r.epoch > 0 && (ld == nil || ld.epoch < r.epoch) {
+		return connectivity.Connecting, ld, fmt.Sprintf("UpdateAddresses(%v) abandoned the running attempt / live connection but no new connection attempt was started", r.list)
+	}
+	switch {
+	case ld == nil:
+		if r.connects > 0 {
+			return connectivity.Idle, ld, fmt.Sprintf("Connect() was called %d times but no dial happened", r.connects)
+		}
+		return connectivity.Idle, ld, ""
+	case !ld.ended:
+		return connectivity.Connecting, ld, ""
+	case ld.ok && !ld.conn.dead:
+		return connectivity.Ready, ld, ""
+	case ld.ok:
+		return connectivity.Idle, ld, ""
+	case now.Sub(ld.end) < time.Duration(c.p.BaseNs):
+		return connectivity.TransientFailure, ld, ""
+	}
+	return connectivity.Idle, ld, ""
+}
+
+// checkSCs compares, for every subchannel of the live LB policy, the last
+// update delivered with the model (c.mu held, quiescent).
+func (c *caseCtx) checkSCs(where string) {
+	if len(c.lbs) == 0 || c.closing {
+		return
+	}
+	lb := c.lbs[len(c.lbs)-1]
+	if lb.closed {
+		return
+	}
+	now := time.Now()
+	for _, r := range lb.mine {
+		if r.sc == nil {
+			continue
+		}
+		last := lb.lastState(r)
+		want, ld, problem := c.scExpect(r, now)
+		if problem != "" {
+			c.fail("%s: subchannel %d (%s): %s (history%s)", where, r.id, r.addr, problem, fmtUpds(c, r))
+			continue
+		}
+		if r.shut {
+			if last != connectivity.Shutdown {
+				c.fail("%s: subchannel %d: Shutdown() was called at %v but the last update delivered is %v, want SHUTDOWN (history%s)", where, r.id, r.shutAt.Sub(epoch(c)), last, fmtUpds(c, r))
+			}
+			continue
+		}
+		if last != want {
+			c.fail("%s: subchannel %d (%s, list %v, epoch %d): last update delivered to the LB policy is %v but the harness saw: last dial %s, now=%v, base=%v => want %v (history%s)",
+				where, r.id, r.addr, r.list, r.epoch, last, fmtDial(c, ld), now.Sub(epoch(c)), time.Duration(c.p.BaseNs), want, fmtUpds(c, r))
+		}
+	}
+}
+
+func fmtDial(c *caseCtx, d *dialRec) string {
+	if d == nil {
+		return "none"
+	}
+	s := fmt.Sprintf("#%s(%s, epoch %d) started@%v", d.addr, d.outcome, d.epoch, d.start.Sub(epoch(c)))
+	if !d.ended {
+		return s + " in flight"
+	}
+	s += fmt.Sprintf(" ended@%v ok=%v", d.end.Sub(epoch(c)), d.ok)
+	if d.conn != nil {
+		s += fmt.Sprintf(" connection dead=%v", d.conn.dead)
+	}
+	return s
 }
 
 func (c *caseCtx) fail(format string, args ...any) {
@@ -289,6 +502,8 @@ func (lb *recLB) newSC() *scRec {
 	c.mu.Lock()
 	r := &scRec{id: len(c.scs), gen: lb.gen}
 	r.addr = fmt.Sprintf("sc%d", r.id)
+	r.list = []string{r.addr}
+	c.owner[r.addr] = r
 	c.scs = append(c.scs, r)
 	lb.mine = append(lb.mine, r)
 	c.mu.Unlock()
@@ -315,6 +530,81 @@ func (lb *recLB) connect(r *scRec) {
 	lb.c.mu.Unlock()
 	if ok {
 		sc.Connect()
+	}
+}
+
+// updateAddrs makes the LB policy call UpdateAddresses on r (quiescent point;
+// c.mu must NOT be held). The model is advanced before the call: dials that
+// the call triggers already see the new list and epoch.
+func (lb *recLB) updateAddrs(r *scRec, shape int) {
+	c := lb.c
+	c.mu.Lock()
+	if r.sc == nil || r.shut || lb.closed {
+		c.mu.Unlock()
+		return
+	}
+	now := time.Now()
+	st, ld, _ := c.scExpect(r, now)
+	keep := r.list[0]
+	if st == connectivity.Ready {
+		keep = ld.addr
+	}
+	fresh := func() string {
+		r.nFresh++
+		a := fmt.Sprintf("%s.u%d", r.addr, r.nFresh)
+		c.owner[a] = r
+		return a
+	}
+	var nl []string
+	switch shape % uaShapes {
+	case uaReplace:
+		nl = []string{fresh()}
+	case uaAppend:
+		nl = []string{keep, fresh()}
+	case uaPrepend:
+		nl = []string{fresh(), keep}
+	case uaSame:
+		nl = append(nl, r.list...)
+	case uaReplace2:
+		nl = []string{fresh(), fresh()}
+	case uaDropHead:
+		if len(r.list) > 1 {
+			nl = append(nl, r.list[1:]...)
+		} else {
+			nl = []string{fresh()}
+		}
+	}
+	ua := &uaRec{at: now, nUpds: len(r.upds), list: nl}
+	switch {
+	case sameList(nl, r.list):
+		ua.kind = "same"
+	case st == connectivity.Idle || st == connectivity.TransientFailure:
+		ua.kind = "list_only_" + st.String()
+	case st == connectivity.Ready && contains(nl, ld.addr):
+		// "If it's in the list, the connection will be kept."
+		ua.kind, ua.old = "kept", ld
+		r.pendingKept = ua
+	case st == connectivity.Ready:
+		// "If it's not in the list, the connection will gracefully close, and a
+		// new connection will be created."
+		ua.kind, ua.old = "restart", ld
+		ld.conn.dead = true
+		r.epoch++
+	default: // CONNECTING: the attempt in flight is abandoned, a new one starts
+		ua.kind, ua.old = "supersede", ld
+		r.epoch++
+	}
+	r.list = nl
+	r.uas = append(r.uas, ua)
+	sc := r.sc
+	wasKept := ua.kind == "kept"
+	c.mu.Unlock()
+	sc.UpdateAddresses(toAddrs(nl))
+	if wasKept {
+		synctest.Wait()
+		c.mu.Lock()
+		r.pendingKept = nil
+		c.mu.Unlock()
 	}
 }
 
@@ -363,7 +653,7 @@ func (lb *recLB) UpdateClientConnState(s balancer.ClientConnState) error {
 	}
 	return nil
 }
-func (lb *recLB) ResolverError(error)                                    {}
+func (lb *recLB) ResolverError(error)                                        {}
 func (lb *recLB) UpdateSubConnState(balancer.SubConn, balancer.SubConnState) {}
 func (lb *recLB) ExitIdle() {
 	lb.c.mu.Lock()
@@ -404,7 +694,7 @@ func startServer() *server {
 }
 
 func exec(p plan) (c *caseCtx, rigErr string) {
-	c = &caseCtx{p: p, cur: connectivity.Idle, hist: []connectivity.State{connectivity.Idle}}
+	c = &caseCtx{p: p, cur: connectivity.Idle, hist: []connectivity.State{connectivity.Idle}, owner: map[string]*scRec{}}
 	current.Store(c)
 	ctx, cancel := context.WithCancel(context.Background())
 	defer cancel()
@@ -415,10 +705,30 @@ func exec(p plan) (c *caseCtx, rigErr string) {
 		c.mu.Lock()
 		i := len(c.dials)
 		o := p.Outcomes[i%len(p.Outcomes)]
-		rec := &dialRec{addr: addr, start: time.Now()}
+		rec := &dialRec{addr: addr, outcome: o, start: time.Now()}
+		if r := c.owner[addr]; r != nil {
+			if ua := r.pendingKept; ua != nil {
+				// The connected address is still in the new list, the documentation
+				// of SubConn.UpdateAddresses says the connection is kept; grpc-go
+				// restarts nevertheless (notes/C30.md, "kept address"). The C30
+				// statement allows either, so the model follows: the connection is
+				// given up, a new epoch starts.
+				ua.kind = "kept_but_restarted"
+				ua.old.conn.dead = true
+				r.epoch++
+				r.pendingKept = nil
+			}
+			rec.sc, rec.epoch = r, r.epoch
+			rec.inList = contains(r.list, addr)
+			rec.isLast = rec.inList && r.list[len(r.list)-1] == addr
+		}
 		c.dials = append(c.dials, rec)
-		cur := srvs[len(srvs)-1]
-		gen := len(srvs) - 1
+		// A dial that is started with an expired context (second address of a
+		// list after the first one used up the connect deadline) fails.
+		expired := dctx.Err() != nil
+		if expired {
+			rec.outcome = o + "(context already done)"
+		}
 		c.mu.Unlock()
 		finish := func(ok bool, lc *liveConn) {
 			c.mu.Lock()
@@ -428,19 +738,57 @@ func exec(p plan) (c *caseCtx, rigErr string) {
 			}
 			c.mu.Unlock()
 		}
+		// connect to the server that is current now; late: the dial context was
+		// cancelled already, grpc is going to close the connection.
+		connect := func(late bool) (net.Conn, error) {
+			c.mu.Lock()
+			cur := srvs[len(srvs)-1]
+			gen := len(srvs) - 1
+			c.mu.Unlock()
+			cctx := dctx
+			if late {
+				cctx = context.Background()
+			}
+			nc, err := cur.lis.DialContext(cctx)
+			if err != nil {
+				finish(false, nil)
+				return nil, err
+			}
+			finish(true, &liveConn{c: nc, srvGen: gen, dead: late})
+			return nc, nil
+		}
+		if expired {
+			finish(false, nil)
+			return nil, dctx.Err()
+		}
 		switch o {
 		case "hang":
 			<-dctx.Done()
 			finish(false, nil)
 			return nil, dctx.Err()
-		case "ok":
-			nc, err := cur.lis.DialContext(dctx)
-			if err != nil {
+		case "hang_ok":
+			<-dctx.Done()
+			if !errors.Is(dctx.Err(), context.Canceled) {
 				finish(false, nil)
-				return nil, err
+				return nil, dctx.Err()
 			}
-			finish(true, &liveConn{c: nc, srvGen: gen})
-			return nc, nil
+			return connect(true)
+		case "slow_ok", "slow_fail":
+			tm := time.NewTimer(slowDial)
+			select {
+			case <-dctx.Done():
+				tm.Stop()
+				finish(false, nil)
+				return nil, dctx.Err()
+			case <-tm.C:
+			}
+			if o == "slow_ok" {
+				return connect(false)
+			}
+			finish(false, nil)
+			return nil, errors.New("scripted dial failure (slow)")
+		case "ok":
+			return connect(false)
 		default:
 			finish(false, nil)
 			return nil, errors.New("scripted dial failure")
@@ -520,6 +868,7 @@ func exec(p plan) (c *caseCtx, rigErr string) {
 		if got != c.cur {
 			c.fail("%s: GetState() = %v but the most recently published channel state is %v (published sequence %v)", where, got, c.cur, c.hist)
 		}
+		c.checkSCs(where)
 		now := time.Now()
 		for _, w := range c.waiters {
 			if w.done {
@@ -568,6 +917,25 @@ func exec(p plan) (c *caseCtx, rigErr string) {
 			if lb := liveLB(); lb != nil {
 				if l := liveSCs(lb); len(l) > 0 {
 					lb.connect(l[s.A%len(l)])
+				}
+			}
+		case opSCUpd:
+			if lb := liveLB(); lb != nil {
+				if l := liveSCs(lb); len(l) > 0 {
+					if s.Pref > 0 {
+						c.mu.Lock()
+						var pl []*scRec
+						for _, r := range l {
+							if st, _, _ := c.scExpect(r, time.Now()); st == connectivity.State(s.Pref-1) {
+								pl = append(pl, r)
+							}
+						}
+						c.mu.Unlock()
+						if len(pl) > 0 {
+							l = pl
+						}
+					}
+					lb.updateAddrs(l[s.A%len(l)], s.B)
 				}
 			}
 		case opConnClose:
@@ -653,74 +1021,13 @@ func exec(p plan) (c *caseCtx, rigErr string) {
 	return c, ""
 }
 
-// finalCheck compares, at the last quiescent point before Close, the last
-// update each subchannel delivered with what the harness knows happened to it.
+// finalCheck: the last quiescent point before Close (same comparison as at
+// every checkpoint: last delivered update == model).
 func finalCheck(c *caseCtx) {
 	synctest.Wait()
 	c.mu.Lock()
 	defer c.mu.Unlock()
-	now := time.Now()
-	if len(c.lbs) == 0 {
-		return
-	}
-	lb := c.lbs[len(c.lbs)-1]
-	if lb.closed {
-		return
-	}
-	for _, r := range lb.mine {
-		if r.sc == nil {
-			continue
-		}
-		last := connectivity.Idle
-		if len(r.upds) > 0 {
-			last = r.upds[len(r.upds)-1].st
-		}
-		if r.shut {
-			if last != connectivity.Shutdown {
-				c.fail("subchannel %d: Shutdown() was called at %v but the last update delivered is %v, want SHUTDOWN (updates %v)", r.id, r.shutAt.Sub(epoch(c)), last, fmtUpds(c, r))
-			}
-			continue
-		}
-		var ld *dialRec
-		for _, d := range c.dials {
-			if d.addr == r.addr {
-				ld = d
-			}
-		}
-		want := []connectivity.State{}
-		switch {
-		case ld == nil:
-			if r.connects > 0 {
-				c.fail("subchannel %d: Connect() was called %d times but no dial happened", r.id, r.connects)
-			}
-			want = append(want, connectivity.Idle)
-		case !ld.ended:
-			want = append(want, connectivity.Connecting)
-		case ld.ok && !ld.conn.dead:
-			want = append(want, connectivity.Ready)
-		case ld.ok:
-			want = append(want, connectivity.Idle)
-		case now.Sub(ld.end) < time.Duration(c.p.BaseNs):
-			want = append(want, connectivity.TransientFailure)
-		default:
-			want = append(want, connectivity.Idle)
-		}
-		ok := false
-		for _, w := range want {
-			if w == last {
-				ok = true
-			}
-		}
-		if !ok {
-			c.fail("subchannel %d (%s): last update delivered to the LB policy is %v but the harness saw: last dial ended=%v ok=%v at %v, connection dead=%v, now=%v, base=%v => want %v (updates %v)",
-				r.id, r.addr, last, ld != nil && ld.ended, ld != nil && ld.ok, func() time.Duration {
-					if ld == nil {
-						return 0
-					}
-					return ld.end.Sub(epoch(c))
-				}(), ld != nil && ld.conn != nil && ld.conn.dead, now.Sub(epoch(c)), time.Duration(c.p.BaseNs), want, fmtUpds(c, r))
-		}
-	}
+	c.checkSCs("before Close")
 }
 
 var epochT time.Time
@@ -729,8 +1036,24 @@ func epoch(*caseCtx) time.Time { return epochT }
 
 func fmtUpds(c *caseCtx, r *scRec) string {
 	s := ""
-	for _, u := range r.upds {
-		s += fmt.Sprintf(" %v@%v", u.st, u.at.Sub(epoch(c)))
+	ui := 0
+	for i := 0; i <= len(r.upds); i++ {
+		for ; ui < len(r.uas) && r.uas[ui].nUpds == i; ui++ {
+			s += fmt.Sprintf(" [UpdateAddresses(%v):%s@%v]", r.uas[ui].list, r.uas[ui].kind, r.uas[ui].at.Sub(epoch(c)))
+		}
+		if i < len(r.upds) {
+			s += fmt.Sprintf(" %v@%v", r.upds[i].st, r.upds[i].at.Sub(epoch(c)))
+		}
+	}
+	return s
+}
+
+func fmtDials(c *caseCtx, r *scRec) string {
+	s := ""
+	for _, d := range c.dials {
+		if d.sc == r {
+			s += " " + fmtDial(c, d) + ";"
+		}
 	}
 	return s
 }
@@ -782,14 +1105,36 @@ func run(t *testing.T, p plan) vk.Result {
 	if len(c.lbs) >= 2 {
 		res = res.With("idle_reentry")
 	}
+	// dials: a subchannel only dials addresses of its current list
+	for _, d := range c.dials {
+		if d.sc == nil {
+			return vk.Bad("dial to %q, which the LB policy never gave to any subchannel", d.addr)
+		}
+		if !d.inList {
+			return vk.Bad("subchannel %d: dial to %q started at %v although UpdateAddresses had removed that address from the subchannel's list before (history%s)", d.sc.id, d.addr, d.start.Sub(epoch(c)), fmtUpds(c, d.sc))
+		}
+	}
 	// subchannels
+	superseded := false
 	for _, r := range c.scs {
 		prev := connectivity.Idle
 		var tfAt, connAt time.Time
+		ui, ep := 0, 0
+		restart := false // UpdateAddresses gave up the READY connection since the previous update
 		for i, u := range r.upds {
-			if !allowed(prev, u.st) {
-				return vk.Bad("subchannel %d: update #%d %v -> %v is not an allowed transition (updates%s)", r.id, i, prev, u.st, fmtUpds(c, r))
+			for ; ui < len(r.uas) && r.uas[ui].nUpds <= i; ui++ {
+				if r.uas[ui].newEpoch() {
+					ep++
+					restart = r.uas[ui].kind == "restart" || r.uas[ui].kind == "kept_but_restarted"
+				}
 			}
+			// READY -> CONNECTING is what grpc-go does when UpdateAddresses drops the
+			// connected address (the statement does not forbid it); READY -> IDLE
+			// (-> CONNECTING) would be accepted as well.
+			if !allowed(prev, u.st) && !(restart && prev == connectivity.Ready && u.st == connectivity.Connecting) {
+				return vk.Bad("subchannel %d: update #%d %v -> %v is not an allowed transition (history%s)", r.id, i, prev, u.st, fmtUpds(c, r))
+			}
+			restart = false
 			switch u.st {
 			case connectivity.Connecting:
 				connAt = u.at
@@ -797,12 +1142,13 @@ func run(t *testing.T, p plan) vk.Result {
 				wantOK := u.st == connectivity.Ready
 				found := false
 				for _, d := range c.dials {
-					if d.addr == r.addr && d.ended && d.ok == wantOK && !d.start.Before(connAt) && !d.end.After(u.at) {
+					if d.sc == r && d.epoch == ep && d.ended && d.ok == wantOK && !d.start.Before(connAt) && !d.end.After(u.at) && (wantOK || d.isLast) {
 						found = true
 					}
 				}
 				if !found {
-					return vk.Bad("subchannel %d: update #%d %v is not backed by a dial that ended (ok=%v) between the CONNECTING update and it (updates%s)", r.id, i, u.st, wantOK, fmtUpds(c, r))
+					return vk.Bad("subchannel %d: update #%d %v is not backed by a dial of the subchannel's current attempt (epoch %d) that ended (ok=%v%s) between the CONNECTING update and it (history%s; dials%s)", r.id, i, u.st, ep, wantOK,
+						map[bool]string{true: "", false: ", last address of the list"}[wantOK], fmtUpds(c, r), fmtDials(c, r))
 				}
 				if u.st == connectivity.TransientFailure {
 					tfAt = u.at
@@ -810,7 +1156,7 @@ func run(t *testing.T, p plan) vk.Result {
 			case connectivity.Idle:
 				if prev == connectivity.TransientFailure {
 					if u.at.Sub(tfAt) < time.Duration(p.BaseNs) {
-						return vk.Bad("subchannel %d: left TRANSIENT_FAILURE for IDLE after %v, backoff is %v (updates%s)", r.id, u.at.Sub(tfAt), time.Duration(p.BaseNs), fmtUpds(c, r))
+						return vk.Bad("subchannel %d: left TRANSIENT_FAILURE for IDLE after %v, backoff is %v (history%s)", r.id, u.at.Sub(tfAt), time.Duration(p.BaseNs), fmtUpds(c, r))
 					}
 					res = res.With("sc_tf_to_idle")
 				}
@@ -822,12 +1168,32 @@ func run(t *testing.T, p plan) vk.Result {
 				}
 			case connectivity.Shutdown:
 				if !r.shut {
-					return vk.Bad("subchannel %d: SHUTDOWN delivered although the LB policy never shut it down (updates%s)", r.id, fmtUpds(c, r))
+					return vk.Bad("subchannel %d: SHUTDOWN delivered although the LB policy never shut it down (history%s)", r.id, fmtUpds(c, r))
 				}
 				res = res.With("sc_shutdown_delivered")
 			}
 			prev = u.st
 		}
+		for _, ua := range r.uas {
+			res = res.With("ua_" + ua.kind)
+			if ua.kind == "supersede" && ua.old != nil && ua.old.ended {
+				superseded = true
+				res = res.With("superseded_dial_" + ua.old.outcome)
+				// what the new attempt's first dial did
+				for _, d := range c.dials {
+					if d.sc == r && d.epoch == ua.old.epoch+1 {
+						res = res.With("superseding_dial_" + d.outcome)
+						break
+					}
+				}
+			}
+		}
+		if len(r.list) > 1 {
+			res = res.With("sc_two_addresses")
+		}
+	}
+	if superseded {
+		res = res.With("update_addresses_supersedes_inflight_attempt")
 	}
 	// waiters
 	aba := false
@@ -857,14 +1223,14 @@ func run(t *testing.T, p plan) vk.Result {
 	if aba {
 		res = res.With("waiter_aba")
 	}
-	res.NonTrivial = aba
+	res.NonTrivial = aba || superseded
 	return res
 }
 
 func TestVerifC30State(t *testing.T) {
 	vk.Check(t, vk.Unit[plan]{
 		ID: "C30", Name: "state",
-		Rule: "real ClientConn in a synctest bubble with a recording LB policy (1-3 subchannels with unique addresses, optional reconnect-on-IDLE), constant backoff 50 ms/1 s/3 s, idle timeout off/2 s/10 s, scripted dial outcomes (ok/fail/hang) and 3-20(120) steps from {sleep around backoff/idle boundaries, cc.Connect, create/shut down/connect a subchannel, close a connection, server GOAWAY, server Stop, register a WaitForStateChange waiter with current/arbitrary source state and 1 ms/700 ms/1 h deadline}, plus 0-16 free-running GetState/WaitForStateChange loops. Checked at every quiescent point: GetState == last published state, no waiter blocked although the state differed from its source at/after registration; per subchannel: allowed transitions, READY/TF backed by a dial result, TF->IDLE only after the backoff, nothing after SHUTDOWN, last delivered update == what the harness knows happened. non-trivial = a waiter was registered with the current state as source and the channel state left that state and returned to it afterwards (ABA)",
+		Rule: "real ClientConn in a synctest bubble with a recording LB policy (1-3 subchannels, every address string belongs to one subchannel, optional reconnect-on-IDLE), constant backoff 50 ms/1 s/3 s, idle timeout off/2 s/10 s, scripted dial outcomes (ok/fail/hang/slow_ok/slow_fail after 400 ms/hang_ok = connects although cancelled) and 3-20(120) steps from {sleep around backoff/idle/dial boundaries, cc.Connect, create/shut down/connect a subchannel, SubConn.UpdateAddresses on a live subchannel (preferably one in a drawn state; new list = [fresh] | [keep,fresh] | [fresh,keep] | same | [fresh,fresh] | list minus head), close a connection, server GOAWAY, server Stop, register a WaitForStateChange waiter with current/arbitrary source state and 1 ms/700 ms/1 h deadline}, plus 0-16 free-running GetState/WaitForStateChange loops. Checked at every quiescent point: GetState == last published state, no waiter blocked although the state differed from its source at/after registration, every subchannel's last delivered update == reference model (Shutdown/UpdateAddresses calls, dial results of the current attempt epoch, killed connections, backoff clock; after an UpdateAddresses that abandons an attempt or drops the connected address a new attempt must have started); per subchannel at the end: allowed transitions (READY->CONNECTING only right after UpdateAddresses dropped the connected address), READY/TF backed by a dial of the CURRENT epoch that ended accordingly after the CONNECTING update (TF: dial to the last address of the list), TF->IDLE only after the backoff, nothing after SHUTDOWN, no dial to an address removed from the list. non-trivial = a waiter was registered with the current state as source and the channel state left that state and returned to it afterwards (ABA), or UpdateAddresses was called with a different list while the subchannel was CONNECTING and the superseded dial then ended (class update_addresses_supersedes_inflight_attempt)",
 		Gen:  gen, Run: run,
 	})
 }
